@@ -72,9 +72,9 @@ Theorem C03_line_comment_some_means_changed :
   format_line_comment alnum c = Some c' -> c' <> c.
 Proof. exact format_line_comment_changes. Qed.
 
-Theorem C03_line_comment_idempotent_needs_utf8 :
-  exists (alnum : bytes -> bool) (c c' c'' : bytes),
-    valid_utf8 c = false /\
-    format_line_comment alnum c = Some c' /\ format_line_comment alnum c' = Some c''.
-Proof. exact format_line_comment_idempotent_refuted. Qed.
+(* (until the repair of F40 this needed valid UTF-8 and was refuted without it) *)
+Theorem C03_line_comment_idempotent_any_bytes :
+  forall (alnum : bytes -> bool) (c c' : bytes),
+  format_line_comment alnum c = Some c' -> format_line_comment alnum c' = None.
+Proof. exact format_line_comment_idempotent_any. Qed.
 
